@@ -26,7 +26,7 @@ RULE = (
 ASSUMPTIONS = [
     "seek()'s return value is not judged (the statement speaks of read results and the reported position)",
     "positions before the start of the decoded region (negative logical offsets) are not exercised",
-    "stubs do not contain ff ff ff other than the end-of-stub marker itself",
+    "stubs contain additional ff ff ff sequences only in stages that carry both the marker and a correct size field (with the marker alone the true end of the stub is ambiguous)",
 ]
 REQUIRED_MONITORS = ["history.model", "contract.read.position", "detect.offset", "detect.reject"]
 
@@ -128,7 +128,8 @@ def check_case(case, ctx):
                 ctx.violation("detect.reject", f"input without marker and without size relation accepted at nonce_offset {xf.nonce_offset}", case)
                 return
         ctx.ok(fp=enc, case={k: v for k, v in case.items() if k != "plain"} | {"plain_len": len(plain)}, classes=(
-            f"detect:marker={case['marker']},size={case['size_ok'] and not case['trailing']}", f"prepend:{min(case['prepend'] // 300, 3)}"))
+            f"detect:marker={case['marker']},size={case['size_ok'] and not case['trailing']}", f"prepend:{min(case['prepend'] // 300, 3)}",
+            "stub:decoy-markers" if stub.count(b"\xff\xff\xff") else "stub:clean"))
     elif case["op"] == "plainfile":
         ctx.mon("detect.reject")
         try:
@@ -239,6 +240,15 @@ def run_shard(shard, ctx):
             size_ok = rng.random() < 0.6
             trailing = b"" if rng.random() < 0.7 else P.filler(rng, rng.randrange(1, 40))
             stub = P.filler(rng, rng.choice([0, 1, 57, rng.randrange(0, 1021 - (3 if marker else 0))]))
+            if marker and size_ok and not trailing and rng.random() < 0.4 and len(stub) >= 4:
+                # decoy end-of-stub markers inside the stub: the offset confirmed by marker AND size field must still win
+                b = bytearray(stub)
+                for _ in range(rng.randrange(1, 4)):
+                    pos = rng.randrange(0, len(b) - 2)
+                    b[pos : pos + 3] = b"\xff\xff\xff"
+                if rng.random() < 0.3:
+                    b[-1:] = b"\xff"  # stub ending in ff: the marker region becomes ff ff ff ff
+                stub = bytes(b)
             check_case({"op": "detect", "plain": plain, "nonce": rng.randbytes(4), "stub": stub, "marker": marker,
                         "size_ok": size_ok, "trailing": trailing, "prepend": prepend}, ctx)
     elif kind == "plain":
